@@ -30,6 +30,9 @@ pub struct Group {
     /// None = explicit header, Some(n) = implicit header with configured length n
     pub implicit: Option<u8>,
     pub continuous: bool,
+    /// explicit header: the maximum payload length configured in the packet parameters (None = 255)
+    #[serde(default)]
+    pub max_len: Option<u8>,
 }
 
 #[derive(Clone, Debug, Serialize, Deserialize)]
@@ -87,7 +90,7 @@ fn prepare(s: &mut Session) -> Result<(), String> {
     macro_rules! prep {
         ($l:expr) => {{
             let mp = $l.create_modulation_params(sf, bw, cr, f).map_err(|e| format!("{e:?}"))?;
-            let pp = $l.create_rx_packet_params(8, s.g.implicit.is_some(), s.g.implicit.unwrap_or(255), true, true, &mp).map_err(|e| format!("{e:?}"))?;
+            let pp = $l.create_rx_packet_params(8, s.g.implicit.is_some(), s.g.implicit.or(s.g.max_len).unwrap_or(255), true, true, &mp).map_err(|e| format!("{e:?}"))?;
             drive($l.prepare_for_rx(mode, &mp, &pp)).ok_or("prepare pending")?.map_err(|e| format!("prepare: {e:?}"))?;
             s.pp = Some(pp);
         }};
@@ -228,6 +231,113 @@ fn run_one(s: &mut Session, len: u8, off: u8, status: u8) -> (Vec<(String, Strin
     (v, got)
 }
 
+
+/// A fetch that fails part-way (an SPI fault at the k-th transaction of get_rx_result) and is retried: the
+/// retry must again return the chip-defined bytes, or fail. Returns (violations, transactions of one fetch).
+#[derive(Clone, Debug, Serialize, Deserialize)]
+pub struct RetryCase {
+    pub chip: String,
+    pub len: u8,
+    pub off: u8,
+    /// None: probe run without a fault
+    pub fault_at: Option<usize>,
+}
+
+fn eval_retry(c: &RetryCase) -> (Vec<(String, String)>, usize) {
+    let g = Group { chip: c.chip.clone(), path: "get_rx_result".into(), buf: 64, implicit: None, continuous: true, max_len: None };
+    let mut s = match build(&g) {
+        Ok(s) => s,
+        Err(e) => return (vec![(format!("C18|{}|setup-failed", c.chip), e)], 0),
+    };
+    let is126 = c.chip == "sx1262";
+    if is126 {
+        s.env.with_chip::<Sx126xChip, _>(|ch| {
+            ch.rx_len = c.len;
+            ch.rx_off = c.off;
+            ch.cmd_status = 2;
+            ch.outcome = Outcome::Done;
+            ch.irq = 0;
+            for i in 0..256 {
+                ch.buffer[i] = chip_byte(i);
+            }
+        });
+    } else {
+        s.env.with_chip::<Sx127xChip, _>(|ch| {
+            ch.rx_len = c.len;
+            ch.rx_off = c.off;
+            ch.outcome = Outcome::Done;
+            ch.regs[0x12] = 0;
+            for i in 0..256 {
+                ch.fifo[i] = chip_byte(i);
+            }
+        });
+    }
+    let pp = s.pp.take().unwrap();
+    let env = s.env.clone();
+    let tag = format!("{}|get_rx_result|retry-after-fault", c.chip);
+    let fault = c.fault_at;
+    let (len, off) = (c.len, c.off);
+    let r = catch(|| {
+        let mut v: Vec<(String, String)> = vec![];
+        let mut consumed = 0usize;
+        macro_rules! go {
+            ($l:expr) => {{
+                if !matches!(drive($l.start_rx()), Some(Ok(()))) {
+                    return (v, 0);
+                }
+                let start = env.0.borrow().pos;
+                env.0.borrow_mut().fault_at = fault.map(|k| start + k);
+                let mut fetches = vec![];
+                for round in 0..2 {
+                    let mut backing = vec![CANARY; 64 + 8];
+                    let res = drive($l.get_rx_result(&pp, &mut backing[4..68]));
+                    if round == 0 {
+                        consumed = env.0.borrow().pos - start;
+                        env.0.borrow_mut().fault_at = None;
+                    }
+                    fetches.push((res.map(|x| x.map(|y| y.0 as usize).map_err(|e| format!("{e:?}"))), backing));
+                    if fault.is_none() {
+                        break;
+                    }
+                }
+                for (i, (res, backing)) in fetches.iter().enumerate() {
+                    if let Some(Ok(l)) = res {
+                        let l = *l;
+                        let which = if i == 0 { "first-fetch" } else { "retry" };
+                        if l > 64 {
+                            v.push((format!("C18|{tag}|returned-length-exceeds-buffer"), format!("{which}: {l}")));
+                            continue;
+                        }
+                        if l != len as usize {
+                            v.push((format!("C18|{tag}|wrong-length"), format!("{which} returned {l}, chip reports {len} at {off} (fault at transaction {fault:?})")));
+                        }
+                        if let Some(j) = (0..l).find(|j| backing[4 + j] != chip_byte((off as usize + j) % 256)) {
+                            v.push((
+                                format!("C18|{tag}|wrong-bytes"),
+                                format!("{which} after a fault at transaction {fault:?}: byte {j} is {:#x}, chip buffer at {} holds {:#x} (len {len} off {off})", backing[4 + j], (off as usize + j) % 256, chip_byte((off as usize + j) % 256)),
+                            ));
+                        }
+                        if backing[..4].iter().chain(backing[4 + l..].iter()).any(|b| *b != CANARY) {
+                            v.push((format!("C18|{tag}|buffer-touched-beyond-packet"), format!("{which}")));
+                        }
+                    }
+                }
+            }};
+        }
+        match &mut s.rig {
+            Rig::L126(l) => go!(l),
+            Rig::L127a(l) => go!(l),
+            Rig::L127b(l) => go!(l),
+            _ => {}
+        }
+        (v, consumed)
+    });
+    match r {
+        Err(p) => (vec![(format!("C18|{tag}|panic|{}", panic_site(&p)), p)], 0),
+        Ok(x) => x,
+    }
+}
+
 pub fn eval(c: &Case) -> Vec<(String, String)> {
     match build(&c.group) {
         Err(e) => vec![(format!("C18|{}|setup-failed", c.group.chip), e)],
@@ -283,6 +393,10 @@ pub fn run(tier: Tier, replay: Option<&str>) {
             let rx2 = d["rx2"].as_bool().unwrap_or(false);
             replay_exit("C18", path, eval_device(len, rx2).into_iter().map(|x| x.0).collect());
         }
+        if cj.get("fault_at").is_some() {
+            let c: RetryCase = serde_json::from_value(cj).expect("case");
+            replay_exit("C18", path, eval_retry(&c).0.into_iter().map(|x| x.0).collect());
+        }
         let c: Case = serde_json::from_value(cj).expect("case");
         replay_exit("C18", path, eval(&c).into_iter().map(|x| x.0).collect());
     }
@@ -296,7 +410,13 @@ pub fn run(tier: Tier, replay: Option<&str>) {
                 for imp in implicits {
                     let conts: Vec<bool> = if path == "rx" { vec![false, true] } else { vec![path == "adapter-continuous"] };
                     for continuous in conts {
-                        groups.push(Group { chip: chip.into(), path: path.into(), buf, implicit: imp, continuous });
+                        groups.push(Group { chip: chip.into(), path: path.into(), buf, implicit: imp, continuous, max_len: None });
+                        // explicit header with a configured maximum below what the chip then reports
+                        if imp.is_none() && !path.starts_with("adapter") && (buf == 64 || buf == 256) {
+                            for m in [0u8, 16, 64] {
+                                groups.push(Group { chip: chip.into(), path: path.into(), buf, implicit: None, continuous, max_len: Some(m) });
+                            }
+                        }
                     }
                 }
             }
@@ -343,6 +463,27 @@ pub fn run(tier: Tier, replay: Option<&str>) {
         }
         ctx.tick(n);
     });
+    // a fetch interrupted by an SPI fault at each of its transactions, then retried
+    let mut retry_cases = 0u64;
+    for chip in ["sx1262", "sx1276", "sx1272"] {
+        for len in [1u8, 12, 64] {
+            for off in [0u8, 1, 0x40, 0xF8] {
+                let (_, n) = eval_retry(&RetryCase { chip: chip.into(), len, off, fault_at: None });
+                for k in 0..n {
+                    let c = RetryCase { chip: chip.into(), len, off, fault_at: Some(k) };
+                    for (sig, what) in eval_retry(&c).0 {
+                        ctx.violation(sig, what, serde_json::to_value(&c).unwrap(), k);
+                    }
+                    retry_cases += 1;
+                    ctx.tick(1);
+                }
+            }
+        }
+    }
+    if retry_cases == 0 {
+        eprintln!("MACHINERY: C18 retry part did not run");
+        std::process::exit(2);
+    }
     // device level (64-byte radio buffer): every payload length up to well past the buffer, both windows
     let mut device_cases = 0u64;
     for len in 0..=120usize {
@@ -357,8 +498,9 @@ pub fn run(tier: Tier, replay: Option<&str>) {
     let coverage = json!({
         "evaluations": ctx.evals(),
         "device_level_cases": device_cases,
+        "retry_after_fault_cases": retry_cases,
         "distinct_nontrivial": returned.load(Ordering::Relaxed),
-        "rule": "chip model (SX1262, SX1276, SX1272) reports every length 0..=255 x offset (all 256 in thorough) x status (SX126x: all 8 command-status values; SX127x: done / CRC error) after a reception; the real driver fetches the packet through LoRa::rx (single and continuous), LoRa::get_rx_result and LorawanRadio::rx_single / rx_continuous into caller buffers of 0, 1, 12, 64, 255, 256 bytes embedded in canaries, in explicit-header mode and in implicit-header mode with configured lengths 0, 1, 12, 255; chip buffer holds position-dependent bytes; plus the device level (see assumptions). non-trivial = cases in which a packet was returned (and compared byte for byte)",
+        "rule": "chip model (SX1262, SX1276, SX1272) reports every length 0..=255 x offset (all 256 in thorough) x status (SX126x: all 8 command-status values; SX127x: done / CRC error) after a reception; the real driver fetches the packet through LoRa::rx (single and continuous), LoRa::get_rx_result and LorawanRadio::rx_single / rx_continuous into caller buffers of 0, 1, 12, 64, 255, 256 bytes embedded in canaries, in explicit-header mode (configured maximum 255, and 0 / 16 / 64 below what the chip reports) and in implicit-header mode with configured lengths 0, 1, 12, 255; chip buffer holds position-dependent bytes; a fetch (get_rx_result, continuous reception) with an SPI fault at each of its transactions followed by a retry; plus the device level (see assumptions). non-trivial = cases in which a packet was returned (and compared byte for byte)",
         "samples": [
             serde_json::to_value(Case { group: groups[0].clone(), len: 13, off: 250, status: 2 }).unwrap(),
             serde_json::to_value(Case { group: groups[groups.len() - 1].clone(), len: 255, off: 1, status: 0 }).unwrap(),
@@ -371,6 +513,10 @@ pub fn run(tier: Tier, replay: Option<&str>) {
     let replayer = |cj: &Value| -> Vec<String> {
         if let Some(d) = cj.get("device_level") {
             return eval_device(d["len"].as_u64().unwrap_or(0) as usize, d["rx2"].as_bool().unwrap_or(false)).into_iter().map(|x| x.0).collect();
+        }
+        if cj.get("fault_at").is_some() {
+            let c: RetryCase = serde_json::from_value(cj.clone()).unwrap();
+            return eval_retry(&c).0.into_iter().map(|x| x.0).collect();
         }
         let c: Case = serde_json::from_value(cj.clone()).unwrap();
         eval(&c).into_iter().map(|x| x.0).collect()
